@@ -7,7 +7,7 @@ mkdir -p work evidence replays
 ./check --layout
 (cd lean && lake build 2>&1 | tail -5)
 # property theorem modules (those registered in props.json)
-MODS=$(python3 -c "import json; print(' '.join('PG.Props.'+k for k,v in sorted(json.load(open('props.json')).items()) if v.get('theorems')))")
+MODS=$(python3 -c "import json; print(' '.join(v.get('module','PG.Props.'+k) for k,v in sorted(json.load(open('props.json')).items()) if v.get('theorems')))")
 if [ -n "$MODS" ]; then (cd lean && lake build $MODS 2>&1 | tail -3); fi
 [ -f harness/Cargo.lock ] || cp /repo/Cargo.lock harness/Cargo.lock
 (cd harness && cargo build --release --offline 2>&1 | tail -3)
